@@ -68,17 +68,23 @@ theorem reachable_inv {f : File} {claimed : Int} {r : Reader} (hr : Reachable f 
 
 /-- **resolve_terminates.**  `resolveSeekPosition` (with the spec's anti-loop rule) finishes:
 along the descent the pair `(DPtrMax, COffset)` decreases lexicographically, DPtrMax is a
-function of the node's offset, so no offset is visited twice and the loop makes fewer than
-`CompressedSize` calls of `loadAndValidate` (each reads at most 4 + 4096 bytes): work
-proportional to the file.  `Outcome.fuel` is the model's "still looping".
+function of the node's offset, so no offset is visited twice, and every visited offset carries
+the three magic bytes with room for a 32-byte node before `CompressedSize`.  Hence the loop
+makes fewer `loadAndValidate` calls (each reads at most 4 + 4096 bytes) than there are such
+offsets in the file (`nodeStarts`, at most `CompressedSize - 31`): work proportional to the
+file — in fact to the number of places in it that look like the start of an index node.
+`Outcome.fuel` is the model's "still looping".
 The 32-byte self-referential file that hangs the unrepaired code is the `example` below. -/
 theorem resolve_terminates {f : File} {claimed : Int} {r : Reader} (hr : Reachable f claimed r)
     (he : r.err = none) (hp : r.seekPos < r.dsize) :
     r.resolve ≠ .fuel ∧ r.resolve ≠ .err .panic ∧
-    (∀ l, r.resolve = .ok l → l.loads < r.csize) := by
+    (∀ l, r.resolve = .ok l → l.loads < nodeStarts r.file r.csize ∧ l.loads < r.csize) ∧
+    nodeStarts r.file r.csize + 31 ≤ r.csize := by
   obtain ⟨inv, _⟩ := reachable_inv hr he
-  obtain ⟨⟨hok, hnp, hnf⟩, hrank⟩ := resolve_spec r inv hp
-  refine ⟨hnf hrank, hnp, ?_⟩
+  obtain ⟨⟨hok, hnp, hnf⟩, hrank, hns⟩ := resolve_spec r inv hp
+  have hle := nodeStarts_le r.file r.csize
+  have h32 := inv.csize_ge
+  refine ⟨hnf hrank, hnp, ?_, by omega⟩
   intro l hl
   have := (hok l hl).2
   omega
